@@ -202,7 +202,7 @@ CLAIMED = {
         "4/C14",
     ),
     "C17": (
-        "Hypothesis-generated operands for a fixed registry of 121 call forms and random chains of calls, "
+        "Hypothesis-generated operands for a fixed registry of about 130 call forms (callees built inside the oracle, every call repeated once on the same callee) and random chains of calls, "
         "with deep before/after snapshots of every argument, caller-owned containers and the global RNG "
         "state; element-wise agreement of image arithmetic with numpy",
         "Every registered call form that is documented to return a new object is run on generated images "
